@@ -1,4 +1,133 @@
+/-
+  C15 — integers are decoded exactly or rejected as out of range, never wrapped.
+-/
+import CosetProofs.Cbor.Roundtrip
 import CosetModel.Api
 namespace Coset.Props.C15
+open Coset Coset.Cbor
+
+/-- the one narrowing lemma behind every i64 site: exact value inside the range, `OutOfRangeIntegerValue` outside. -/
+theorem narrow_i64 (n : Int) :
+    (i64Min ≤ n ∧ n ≤ i64Max → narrowI64 n = .ok n) ∧ (¬ (i64Min ≤ n ∧ n ≤ i64Max) → narrowI64 n = .err .outOfRange) := by
+  constructor <;> intro h <;> simp [narrowI64, h]
+
+theorem narrow_u64 (n : Int) :
+    (0 ≤ n ∧ n ≤ u64Max → narrowU64 n = .ok n) ∧ (¬ (0 ≤ n ∧ n ≤ u64Max) → narrowU64 n = .err .outOfRange) := by
+  constructor <;> intro h <;> simp [narrowU64, h]
+
+/-- a narrowing site never returns a different number (no truncation, wrap-around, saturation or sign flip). -/
+theorem narrow_exact (n m : Int) : (narrowI64 n = .ok m → m = n) ∧ (narrowU64 n = .ok m → m = n) := by
+  constructor <;> intro h
+  · unfold narrowI64 at h; split at h <;> simp_all
+  · unfold narrowU64 at h; split at h <;> simp_all
+
+/-! ### the interpreting positions -/
+theorem label (n : Int) :
+    Label.fromValue (.int n) = if i64Min ≤ n ∧ n ≤ i64Max then .ok (.int n) else .err .outOfRange := by
+  by_cases h : i64Min ≤ n ∧ n ≤ i64Max <;> simp [Label.fromValue, narrowI64, h]
+
+theorem registered_label_out_of_range (R : Registry) (n : Int) (h : ¬ (i64Min ≤ n ∧ n ≤ i64Max)) :
+    RegLabel.fromValue R (.int n) = .err .outOfRange ∧ RegLabelPriv.fromValue R (.int n) = .err .outOfRange := by
+  simp [RegLabel.fromValue, RegLabelPriv.fromValue, narrowI64, h]
+
+/-- in range, the registry labels carry exactly the wire integer (as the registered name for it, or as private use). -/
+theorem registered_label_exact (R : Registry) (n : Int) (l : RegLabelPriv) (h : RegLabelPriv.fromValue R (.int n) = .ok l) :
+    RegLabelPriv.toValue R l = .ok (.int n) := by
+  unfold RegLabelPriv.fromValue at h
+  cases hn : narrowI64 n with
+  | ok m =>
+    have hm := (narrow_exact n m).1 hn; subst hm
+    simp only [hn] at h
+    cases hf : R.fromI64 m with
+    | some k =>
+      simp [hf] at h; subst h
+      have : R.toI64 k = m := by
+        unfold Registry.fromI64 at hf
+        rw [List.findIdx?_eq_some_iff_getElem] at hf
+        obtain ⟨hk, hp, _⟩ := hf
+        unfold Registry.toI64
+        simp [List.getElem?_eq_getElem hk]; simpa using hp
+      simp [RegLabelPriv.toValue, this]
+    | none =>
+      simp only [hf] at h
+      split at h
+      · simp at h; subst h; rfl
+      · simp at h
+  | err e => simp [hn] at h
+  | panic p => simp [hn] at h
+
+theorem timestamp (n : Int) :
+    Timestamp.fromValue (.int n) = if i64Min ≤ n ∧ n ≤ i64Max then .ok (.wholeSeconds n) else .err .outOfRange := by
+  by_cases h : i64Min ≤ n ∧ n ≤ i64Max <;> simp [Timestamp.fromValue, narrowI64, h]
+
+theorem timestamp_float (b : UInt64) : Timestamp.fromValue (.float b) = .ok (.fractionalSeconds b) := rfl
+
+/-- nonce position of PartyInfo. -/
+theorem nonce (a c : Value) (n : Int) (ha : nullOrBytes a = .ok ia) (hc : nullOrBytes c = .ok ic) :
+    PartyInfo.fromValue (.array [a, .int n, c]) =
+      if i64Min ≤ n ∧ n ≤ i64Max then .ok ⟨ia, some (.integer n), ic⟩ else .err .outOfRange := by
+  by_cases h : i64Min ≤ n ∧ n ≤ i64Max <;>
+    simp [PartyInfo.fromValue, tryAsArray, Gen.PartyInfo_arityBad, Gen.PartyInfo_removes, vremove, ha, hc, narrowI64, h]
+
+/-- key data length: 64-bit unsigned. -/
+theorem key_data_length (n : Int) (p : Value) (ph : ProtectedHeader) (hp : phFromBstr p = .ok ph) :
+    SuppPubInfo.fromValue (.array [.int n, p]) =
+      if 0 ≤ n ∧ n ≤ u64Max then .ok ⟨n, ph, none⟩ else .err .outOfRange := by
+  by_cases h : 0 ≤ n ∧ n ≤ u64Max <;>
+    simp [SuppPubInfo.fromValue, tryAsArray, Gen.SuppPubInfo_arityBad, Gen.SuppPubInfo_removes, vremove, hp, tryAsInteger, narrowU64, h]
+
+/-- header labels out of i64 range are rejected with the out-of-range error, whatever follows. -/
+theorem header_label_out_of_range (n : Int) (v : Value) (rest : List (Value × Value)) (h : ¬ (i64Min ≤ n ∧ n ≤ i64Max)) :
+    hdrFromValue (.map ((.int n, v) :: rest)) = .err .outOfRange := by
+  simp [hdrFromValue, topFuel, Header.fromValue, tryAsMap, headerLoop, Label.fromValue, narrowI64, h]
+
+theorem key_label_out_of_range (n : Int) (v : Value) (rest : List (Value × Value)) (h : ¬ (i64Min ≤ n ∧ n ≤ i64Max)) :
+    CoseKey.fromValue (.map ((.int n, v) :: rest)) = .err .outOfRange := by
+  simp [CoseKey.fromValue, tryAsMap, keyLoop, Label.fromValue, narrowI64, h]
+
+theorem claim_name_out_of_range (n : Int) (v : Value) (rest : List (Value × Value)) (h : ¬ (i64Min ≤ n ∧ n ≤ i64Max)) :
+    ClaimsSet.fromValue (.map ((.int n, v) :: rest)) = .err .outOfRange := by
+  simp [ClaimsSet.fromValue, claimsLoop, RegLabelPriv.fromValue, narrowI64, h]
+
+/-! ### the wire gives the mathematical value; supported values encode back to it -/
+/-- every integer of CBOR's range [-2^64, 2^64-1] is read back exactly from its (deterministic) encoding. -/
+theorem wire_exact (n : Int) (h : -(2 ^ 64 : Int) ≤ n ∧ n < 2 ^ 64) (s : Bytes) :
+    parse (fuel + 1) d (enc (.int n) ++ s) = .ok (.int n, s) :=
+  parse_enc (.int n) (fuel + 1) d s (by simpa [Normal] using h) (by simp [depthOf]) (by simp [nsize])
+
+/-- every supported field value encodes to a CBOR integer of the same value, which decodes to it again. -/
+theorem widen (n : Int) (h : i64Min ≤ n ∧ n ≤ i64Max) :
+    Label.toValue (.int n) = .ok (.int n) ∧ readToValue (enc (.int n)) = .ok (.int n) ∧ Label.fromValue (.int n) = .ok (.int n) := by
+  refine ⟨rfl, ?_, ?_⟩
+  · exact readToValue_enc (.int n) (by simp [Normal]; unfold i64Min i64Max at h; omega) (by simp [depthOf])
+  · simp [Label.fromValue, narrowI64, h]
+
+/-- integers in uninterpreted positions (values of extra parameters) are copied, whatever their magnitude. -/
+theorem uninterpreted_preserved (l : Label) (v : Value) (h : Header) (hl : l ≠ hALG ∧ l ≠ hCRIT ∧ l ≠ hCONTENT_TYPE ∧ l ≠ hKID ∧ l ≠ hIV ∧ l ≠ hPARTIAL_IV ∧ l ≠ hCOUNTER_SIG)
+    (d : Nat) (sf : Value → Res CoseSignature) :
+    headerDispatch d sf l v h = .ok (h.setRest (h.rest ++ [(l, v)])) := by
+  simp [headerDispatch, hl]
+
+/-- non-vacuity: 2^63 as a header label is out of range; -2^63 as `exp` decodes to exactly that. -/
+example : hdrFromValue (.map [(.int 9223372036854775808, .null)]) = .err .outOfRange :=
+  header_label_out_of_range _ _ _ (by decide)
+example : Timestamp.fromValue (.int (-9223372036854775808)) = .ok (.wholeSeconds (-9223372036854775808)) := by decide
+
+#print axioms narrow_i64
+#print axioms narrow_u64
+#print axioms narrow_exact
+#print axioms label
+#print axioms registered_label_out_of_range
+#print axioms registered_label_exact
+#print axioms timestamp
+#print axioms timestamp_float
+#print axioms nonce
+#print axioms key_data_length
+#print axioms header_label_out_of_range
+#print axioms key_label_out_of_range
+#print axioms claim_name_out_of_range
+#print axioms wire_exact
+#print axioms widen
+#print axioms uninterpreted_preserved
 
 end Coset.Props.C15
